@@ -117,6 +117,9 @@ struct Pred<'a, E: Elem> {
     ds_ref: Box<dyn Fn(&Ds<E>) -> Obs + 'a>,
     ds_owned: Box<dyn Fn(Ds<E>) -> (Array2<E>, Obs) + 'a>,
     inplace_junk: Box<dyn Fn(&Array2<E>) -> Obs + 'a>,
+    /// multi-step sequence on ONE target buffer: predict_inplace of the batch in reversed row order first (the buffer
+    /// then holds valid answers that belong to other rows), then predict_inplace of the batch itself into the same buffer
+    inplace_reused: Box<dyn Fn(&Array2<E>) -> Obs + 'a>,
 }
 
 macro_rules! mk_pred {
@@ -145,6 +148,13 @@ macro_rules! mk_pred {
             inplace_junk: Box::new(move |x: &Array2<$e>| {
                 let mut y: $t = PredictInplace::<Array2<$e>, $t>::default_target(m, x);
                 y.junk();
+                PredictInplace::<Array2<$e>, $t>::predict_inplace(m, x, &mut y);
+                y.obs()
+            }),
+            inplace_reused: Box::new(move |x: &Array2<$e>| {
+                let xr = x.slice(s![..;-1, ..]).to_owned();
+                let mut y: $t = PredictInplace::<Array2<$e>, $t>::default_target(m, x);
+                PredictInplace::<Array2<$e>, $t>::predict_inplace(m, &xr, &mut y);
                 PredictInplace::<Array2<$e>, $t>::predict_inplace(m, x, &mut y);
                 y.obs()
             }),
@@ -319,6 +329,7 @@ fn check_batch<E: Elem>(ctx: &mut Ctx, rng: &mut Sm64, pred: &Pred<E>, x: &Array
         cmp_exact(&call!(bv(&v)), &base.rows, "predict(&view)", B_FORMS, &mut code, &mut what, &mut fail);
     }
     cmp_exact(&call!((pred.inplace_junk)(x)), &base.rows, "predict_inplace on a pre-filled target", B_FORMS, &mut code, &mut what, &mut fail);
+    cmp_exact(&call!((pred.inplace_reused)(x)), &base.rows, "predict_inplace on a target reused from an earlier call (reversed batch)", B_FORMS, &mut code, &mut what, &mut fail);
     match call!((pred.owned)(x.clone())) {
         Err(e) => fail(B_PANIC, format!("predict(records) panicked: {}", e), &mut code, &mut what),
         Ok((rec, o)) => {
@@ -1532,6 +1543,85 @@ macro_rules! with_kernel {
     };
 }
 
+// ---- round 5: non-linear-kernel SVM predict_inplace against C03/ModelR5.v (run in C03/CorrR5.v) ----
+fn r5_variants(pool: &Array2<f64>) -> Vec<(&'static str, Array2<f64>, usize)> {
+    let n = pool.nrows().min(8);
+    let x = pool.slice(s![..n, ..]).to_owned();
+    let p = x.ncols();
+    let mut v: Vec<(&'static str, Array2<f64>, usize)> = vec![("row_major", x.clone(), n), ("column_major", fortran(&x), n)];
+    v.push(("empty_batch", x.slice(s![..0, ..]).to_owned(), 0));
+    let m = n.min(3);
+    v.push(("target_too_long", x.slice(s![..m, ..]).to_owned(), m + 1));
+    if m > 0 { v.push(("target_too_short", x.slice(s![..m, ..]).to_owned(), m - 1)); }
+    // Gaussian: the iterator zip truncates; polynomial: &a * &b panics unless one operand has length 1
+    v.push(("extra_column", Array2::from_shape_fn((m, p + 1), |(i, j)| if j < p { x[(i, j)] } else { 1.0 }), m));
+    if p > 1 { v.push(("single_column", x.slice(s![..m, ..1]).to_owned(), m)); }
+    v
+}
+/// (argument, libm value) pairs of every kernel evaluation of the batch: exp for the Gaussian kernel,
+/// powf(., d) for the polynomial kernel; the arguments are recomputed by the Gallina model
+fn r5_table(kern: Kern, train: &Array2<f64>, alpha: &[f64], x: &Array2<f64>) -> Vec<(f64, f64)> {
+    let mut t: Vec<(f64, f64)> = Vec::new();
+    let mut seen = std::collections::HashSet::new();
+    for r in x.rows() {
+        for (s, a) in train.rows().into_iter().zip(alpha.iter()) {
+            if !(a.abs() > 100.0 * f64::EPSILON) { continue; }
+            let kv = match kern {
+                Kern::Gauss(eps) => {
+                    let d = s.iter().zip(r.iter()).map(|(u, v)| (*u - *v) * (*u - *v)).sum::<f64>();
+                    let z = -d / eps;
+                    Some((z, z.exp()))
+                }
+                Kern::Poly(c, d) => {
+                    if s.len() == r.len() || s.len() == 1 || r.len() == 1 { let b = (&s * &r).sum() + c; Some((b, b.powf(d))) } else { None }
+                }
+                Kern::Lin => None,
+            };
+            if let Some((k, v)) = kv { if seen.insert(k.to_bits()) { t.push((k, v)); } }
+        }
+    }
+    t
+}
+fn r5_head(kern: Kern, kind: u64, train: &Array2<f64>, alpha: &[f64], rho: f64, x: &Array2<f64>) -> String {
+    let (km, p1, p2, dn) = match kern {
+        Kern::Gauss(e) => (0u64, e, 0.0, "None".to_string()),
+        Kern::Poly(c, d) => (1u64, c, d, if d.fract() == 0.0 && (0.0..=64.0).contains(&d) { format!("(Some {})", cz(d as i64)) } else { "None".to_string() }),
+        Kern::Lin => unreachable!(),
+    };
+    format!("RSvmK {} {} {} {} {} {} {} {} {} {}", cn(km), cn(kind), sf64(p1), sf64(p2), dn, cpairs(&r5_table(kern, train, alpha, x)),
+        cmat(train), cvec64(alpha), sf64(rho), cmat(x))
+}
+fn r5_case(ctx: &mut Ctx, model: &str, kern: Kern, variant: &str, term: String, x: &Array2<f64>, panicked: bool) {
+    let id = ctx.next_id();
+    if !ctx.out.wanted(id) { return; }
+    let desc = format!(
+        "{{\"predictor\": {}, \"model\": \"C03/ModelR5.v svm_kernel_inplace on a pre-filled target\", \"kernel\": {}, \"variant\": {}, \"rows\": {}, \"cols\": {}, \"panicked\": {}, \"batch\": {}}}",
+        jstr(model), jstr(&format!("{:?}", kern)), jstr(variant), x.nrows(), x.ncols(), panicked, jrows(&rows_of(&x.view()))
+    );
+    ctx.out.bump(&format!("coq_r5_{}", model));
+    ctx.out.bump(&format!("coq_r5_variant_{}", variant));
+    ctx.out.bump(match kern { Kern::Gauss(_) => "coq_r5_kernel_gaussian", Kern::Poly(..) => "coq_r5_kernel_polynomial", Kern::Lin => "coq_r5_kernel_linear" });
+    if panicked { ctx.out.bump("coq_r5_panics"); }
+    let tag = format!("predictor_{}", model);
+    let vtag = format!("variant_{}", variant);
+    let key = if x.nrows() >= 2 && !panicked { Some(fnv(desc.as_bytes())) } else { None };
+    ctx.out.case(id, &format!("CR5 {} ({})", cn(id), term), &[&tag, "array_model_r5", "svm_nonlinear_kernel", &vtag], &desc, key);
+}
+fn r5_svm_reg(ctx: &mut Ctx, model: &str, kern: Kern, m: &Svm<f64, f64>, train: &Array2<f64>, pool: &Array2<f64>) {
+    for (variant, x, ny) in r5_variants(pool) {
+        let out = inplace_on(m, &x, junk_f64(ny));
+        let term = format!("{} {} {} [] None", r5_head(kern, 0, train, &m.alpha, m.rho, &x), cvec64(&junk_f64(ny).to_vec()), copt(out.as_ref().map(|o| cvec64(&o.to_vec()))));
+        r5_case(ctx, model, kern, variant, term, &x, out.is_none());
+    }
+}
+fn r5_svm_cls(ctx: &mut Ctx, model: &str, kern: Kern, m: &Svm<f64, bool>, train: &Array2<f64>, pool: &Array2<f64>) {
+    for (variant, x, ny) in r5_variants(pool) {
+        let out = inplace_on(m, &x, junk_bool(ny));
+        let term = format!("{} ([])%float None {} {}", r5_head(kern, 1, train, &m.alpha, m.rho, &x), cvecb(&junk_bool(ny).to_vec()), copt(out.as_ref().map(|o| cvecb(&o.to_vec()))));
+        r5_case(ctx, model, kern, variant, term, &x, out.is_none());
+    }
+}
+
 fn svm_models(ctx: &mut Ctx, rng: &mut Sm64, ninst: usize) {
     let kerns = [Kern::Lin, Kern::Gauss(8.0), Kern::Poly(1.0, 2.0), Kern::Gauss(30.0)];
     for inst in 0..ninst {
@@ -1554,7 +1644,7 @@ fn svm_models(ctx: &mut Ctx, rng: &mut Sm64, ninst: usize) {
                 ext_case(ctx, "svm_classification", bad.is_none(), "predict(x) = (weighted_sum(x) - rho >= 0)", &format!("{} first differing row {:?}", inst_name, bad.map(|i| pool.row(i).to_vec())));
                 let badrow = (0..pool.nrows()).find(|&i| { let one: bool = m.predict(pool.row(i)); let own: bool = m.predict(pool.row(i).to_owned()); one != o[i] || own != o[i] });
                 row_form_check(ctx, "svm_classification", badrow, &pool);
-                if let Kern::Lin = kern { mat_svm_cls(ctx, "svm_classification", &m, &pool); }
+                if let Kern::Lin = kern { mat_svm_cls(ctx, "svm_classification", &m, &pool); } else { r5_svm_cls(ctx, "svm_classification", kern, &m, &xa, &pool); }
                 let asum: f64 = m.alpha.iter().map(|a| a.abs()).sum::<f64>() + m.rho.abs();
                 let mm = &m;
                 let near = move |row: &[f64]| !((mm.weighted_sum(&Array1::from(row.to_vec())) - mm.rho).abs() > 1e-9 * (1.0 + asum));
@@ -1604,7 +1694,7 @@ fn svm_models(ctx: &mut Ctx, rng: &mut Sm64, ninst: usize) {
                 ext_case(ctx, "svm_regression", bad.is_none(), "predict(x) = weighted_sum(x) - rho", &format!("{} first differing row {:?}", inst_name, bad.map(|i| pool.row(i).to_vec())));
                 let badrow = (0..pool.nrows()).find(|&i| { let one: f64 = m.predict(pool.row(i)); let own: f64 = m.predict(pool.row(i).to_owned()); one.to_bits() != o[i].to_bits() || own.to_bits() != o[i].to_bits() });
                 row_form_check(ctx, "svm_regression", badrow, &pool);
-                if let Kern::Lin = kern { mat_svm_reg(ctx, "svm_regression", &m, &pool); }
+                if let Kern::Lin = kern { mat_svm_reg(ctx, "svm_regression", &m, &pool); } else { r5_svm_reg(ctx, "svm_regression", kern, &m, &xa, &pool); }
                 let asum: f64 = m.alpha.iter().map(|a| a.abs()).sum::<f64>() * (1.0 + maxabs(xa.as_slice().unwrap())) + m.rho.abs();
                 let pred = mk_pred!(m, Array1<f64>, f64, view);
                 metamorph(ctx, rng, "svm_regression", &inst_name, &pred, &pool, &Xl::real(asum));
@@ -1628,6 +1718,7 @@ fn svm_models(ctx: &mut Ctx, rng: &mut Sm64, ninst: usize) {
                 let o: Array1<bool> = m.predict(&pool);
                 let bad = (0..pool.nrows()).find(|&i| o[i] != (m.weighted_sum(&pool.row(i)) - m.rho >= 0.0));
                 ext_case(ctx, "svm_one_class", bad.is_none(), "predict(x) = (weighted_sum(x) - rho >= 0)", &format!("{} first differing row {:?}", inst_name, bad.map(|i| pool.row(i).to_vec())));
+                r5_svm_cls(ctx, "svm_one_class", if let Kern::Lin = kern { Kern::Gauss(8.0) } else { kern }, &m, &xa, &pool);
                 let asum: f64 = m.alpha.iter().map(|a| a.abs()).sum::<f64>() + m.rho.abs();
                 let mm = &m;
                 let near = move |row: &[f64]| !((mm.weighted_sum(&Array1::from(row.to_vec())) - mm.rho).abs() > 1e-9 * (1.0 + asum));
